@@ -82,6 +82,16 @@ class RuleTable:
     # ---- statement walk
     def _run_body(self, m, body, env):
         for st in body:
+            if isinstance(st, ast.Assign):
+                # X = helper(...) / A, B = (helper(n) for n in (...)): a helper that registers as a side effect
+                from .model import static_sequence
+
+                vals = static_sequence(st.value) if isinstance(st.value, (ast.Tuple, ast.List, ast.GeneratorExp, ast.ListComp)) or (isinstance(st.value, ast.Call) and isinstance(st.value.func, ast.Name) and st.value.func.id in ("tuple", "list", "map")) else [st.value]
+                for v_ in vals or []:
+                    if isinstance(v_, ast.Call) and isinstance(v_.func, (ast.Name, ast.Attribute)):
+                        fr_ = self.repo.resolve_expr(m, v_.func)
+                        if fr_ is not None and fr_.kind == "repo" and getattr(fr_, "okind", None) == "def" and isinstance(fr_.node, ast.FunctionDef) and not fr_.node.decorator_list and _contains_reg_call(fr_.node):
+                            self._call(m, v_, env)
             if isinstance(st, ast.Expr) and isinstance(st.value, ast.Call):
                 self._call(m, st.value, env)
             elif isinstance(st, ast.Assign) and (self._depth > 0 or self._in_loop > 0) and len(st.targets) == 1 and isinstance(st.targets[0], ast.Name):
@@ -244,6 +254,42 @@ class RuleTable:
                 return list(r.node.elts)
         return None
 
+    def _synth_class(self, m, e):
+        """the class object built by type(<name>, (<bases>,), {<constant attribute names>: values}): a synthetic class
+        definition bound under that name in the module (the usual convention NAME = type("NAME", ...))"""
+        if isinstance(e, _Foreign):
+            m, e = e.mod, e.expr
+        if not (isinstance(e, ast.Call) and len(e.args) == 3 and not e.keywords):
+            return None
+        fr = self.repo.resolve_expr(m, e.func)
+        if fr is None or fr.qual not in ("builtins.type",) and not fr.qual.endswith(".type_"):
+            return None
+        name = _const_fold_str(e.args[0])
+        if not (isinstance(name, ast.Constant) and isinstance(name.value, str) and name.value.isidentifier()):
+            return None
+        bases, ns = e.args[1], e.args[2]
+        if not isinstance(bases, (ast.Tuple, ast.List)) or not isinstance(ns, ast.Dict) or not all(isinstance(k, ast.Constant) and isinstance(k.value, str) for k in ns.keys):
+            return None
+        key = ("synth", m.name, name.value)
+        cache = self.__dict__.setdefault("_synth", {})
+        if key not in cache:
+            body = [ast.Assign(targets=[ast.Name(id=k.value, ctx=ast.Store())], value=getattr(v, "expr", v)) for k, v in zip(ns.keys, ns.values)] or [ast.Pass()]
+            node = ast.ClassDef(name=name.value, bases=list(bases.elts), keywords=[], body=body, decorator_list=[])
+            try:
+                node.type_params = []
+            except Exception:
+                pass
+            ast.copy_location(node, e)
+            ast.fix_missing_locations(node)
+            node._parent = m.tree
+            for ch in ast.walk(node):
+                for c2 in ast.iter_child_nodes(ch):
+                    if not hasattr(c2, "_parent"):
+                        c2._parent = ch
+            m._bind(name.value, ("class", node, node))
+            cache[key] = node
+        return self.repo.resolve(m, name.value)
+
     def _resolve(self, m, e, env):
         if isinstance(e, _Foreign):
             return self.repo.resolve_expr(e.mod, e.expr)
@@ -272,6 +318,8 @@ class RuleTable:
             return
         if isinstance(f, ast.Attribute) and f.attr == "register":
             cls = self._resolve(m, f.value, env)
+            if cls is None:
+                cls = self._synth_class(m, subst(f.value, env))
             if cls is not None and cls.kind == "repo" and cls.okind == "class":
                 mro = class_mro(self.repo, cls)
                 quals = [k.qual for k in mro]
@@ -291,7 +339,9 @@ class RuleTable:
                     return
                 if "autograd.core.VSpace" in quals:
                     self.sites += 1
-                    maker = c.args[1] if len(c.args) > 1 else None
+                    maker = c.args[1] if len(c.args) > 1 else next((k.value for k in c.keywords if k.arg == "vspace_maker"), None)
+                    if maker is not None and env:
+                        maker = getattr(subst(maker, env), "expr", subst(maker, env))
                     self.vspace_reg.append((cls.qual, norm_text(arg0), tref, maker, m, c))
                     return
         if fref is not None and fref.kind == "repo" and fref.okind == "def" and isinstance(fref.node, ast.FunctionDef) and not fref.node.decorator_list:
